@@ -224,8 +224,13 @@ def go_core(obs):
     return obs.split("\t!")[0]
 
 
-def prop_violation(c):
+def prop_violation(c, prop=None):
     """A concrete input on which the Go code contradicts the property."""
+    rule = (prop or {}).get("violation_if", {}).get(c.engine)
+    if rule and re.search(rule, c.go):
+        return "go observation matches /%s/: %s" % (rule, c.go[:200])
+    if (prop or {}).get("ignore_spec", {}).get(c.engine):
+        return None
     if "\t!" in c.go:
         return c.go.split("\t!", 1)[1]
     if c.spec != "-" and go_core(c.go) != c.spec:
@@ -298,7 +303,7 @@ def main(argv):
     violations, corr = [], []
     known_hit = {}
     for c in all_cases:
-        pv = prop_violation(c)
+        pv = prop_violation(c, prop)
         if pv:
             key = classify.violation_key(a.pid, c)
             k = next((k for k in known if k["key"] == key), None)
@@ -427,7 +432,7 @@ def replay(ctx, path):
             fh.write("\n".join(dict.fromkeys(payloads)) + "\n")
         cs, _ = run_cases(ctx, eng, cases_file=f, origin="replay", tag="r")
         for c in cs:
-            pv, cm = prop_violation(c), corr_mismatch(c)
+            pv, cm = prop_violation(c, PROPS[ctx.pid]), corr_mismatch(c)
             print("REPLAY engine=%s\n  case : %s\n  go   : %s\n  model: %s\n  spec : %s\n  => %s"
                   % (c.engine, c.payload, c.go, c.model, c.spec,
                      ("PROPERTY VIOLATED: " + pv) if pv else ("correspondence disagreement: " + cm) if cm else "agrees"))
